@@ -6,6 +6,8 @@ import CstructModel.Enum
 import CstructModel.Pointer
 import CstructModel.Union
 import CstructModel.Parser
+import CstructModel.Stubgen
+import CstructModel.Compiler
 open Cstruct Cstruct.Proto
 
 def pairs? (s : Sexp) : Option (List (String × Int)) :=
@@ -31,6 +33,68 @@ def mkEnv (ctx consts : List (String × Int)) (tbl : List (String × Except Expr
 def exprResult : Except Expr.EErr Int → Sexp
   | .ok v => .list [.atom "ok", .atom (toString v)]
   | .error e => .list [.atom "err", .atom e.name]
+
+-- ---------------------------------------------------------------------------------------- stub generator
+mutual
+partial def parseSTy : Sexp → Option Stubgen.STy
+  | .list [.atom "leaf", n] => n.string?.map .leaf
+  | .list [.atom "chararr", n] => n.string?.map .charArr
+  | .list [.atom "wchararr", n] => n.string?.map .wcharArr
+  | .list [.atom "ptr", n, t] => do some (.ptr (← n.string?) (← parseSTy t))
+  | .list [.atom "arr", n, t] => do some (.arr (← n.string?) (← parseSTy t))
+  | .list [.atom "struct", n, b, .list fs] => do some (.struct (← n.string?) (← b.string?) (← parseSFields fs))
+  | _ => none
+partial def parseSFields : List Sexp → Option Stubgen.SFields
+  | [] => some .nil
+  | .list [f, t] :: rest => do some (.cons (← f.string?) (← parseSTy t) (← parseSFields rest))
+  | _ => none
+end
+
+def parseTDef : Sexp → Option Stubgen.TDef
+  | .list [.atom "str", t] => t.string?.map .str
+  | .list [.atom "enum", n, b, .list ms] => do some (.enum (← n.string?) (← b.string?) (← ms.mapM Sexp.string?))
+  | .list [.atom "generic", n, b] => do some (.generic (← n.string?) (← b.string?))
+  | .list [.atom "ty", t] => (parseSTy t).map .ty
+  | _ => none
+
+def strPairs? (l : List Sexp) : Option (List (String × String)) :=
+  l.mapM fun p => match p with
+    | .list [k, v] => do some ((← k.string?), (← v.string?))
+    | _ => none
+
+-- ---------------------------------------------------------------------------------------- compiled-reader plans
+def parseSlot : Sexp → Option Compiler.Slot
+  | .list [n, src, dec, sz] => do
+    let src' ← match src with
+      | .list [.atom "buf", a, b] => do some (Compiler.Src.buf (← a.nat?) (← b.nat?))
+      | .list [.atom "data", i] => do some (Compiler.Src.data1 (← i.nat?))
+      | .list [.atom "data", i, j] => do some (Compiler.Src.dataN (← i.nat?) (← j.nat?))
+      | _ => none
+    let dec' ← match dec with
+      | .atom "init" => some Compiler.Dec.init
+      | .atom "parse" => some Compiler.Dec.parse
+      | .atom "pointer" => some Compiler.Dec.pointer
+      | .list [.atom "intarray", k] => k.nat?.map Compiler.Dec.intArray
+      | .atom "initarray" => some Compiler.Dec.initArray
+      | .atom "parsearray" => some Compiler.Dec.parseArray
+      | .atom "pointerarray" => some Compiler.Dec.pointerArray
+      | _ => none
+    some { name := (← n.string?), src := src', dec := dec', size := (← sz.nat?) }
+  | _ => none
+
+def parseInstr : Sexp → Option Compiler.Instr
+  | .list [.atom "seek", n] => n.nat?.map .seek
+  | .list [.atom "align", n] => n.nat?.map .align
+  | .list [.atom "aligncls"] => some .alignCls
+  | .list [.atom "bitsreset"] => some .bitsReset
+  | .list [.atom "sub", n] => n.string?.map .sub
+  | .list [.atom "bits", n, k, .atom v] => do
+    let via ← match v with | "self" => some Compiler.Via.self | "base" => some .base | "token" => some .token | _ => none
+    some (.bits (← n.string?) (← k.nat?) via)
+  | .list [.atom "block", sz, fmt, .list slots] => do
+    let f : Option String := match fmt with | .str t => some t | _ => none
+    some (.block (← sz.nat?) f (← slots.mapM parseSlot))
+  | _ => none
 
 def handle (s : Sexp) : Sexp :=
   match s with
@@ -219,6 +283,32 @@ def handle (s : Sexp) : Sexp :=
       | some _ => .list [.atom "ok"]
       | none => .list [.atom "err", .atom "ResolveError"]
     | _, _ => .list [.atom "bad-args"]
+  -- (stubgen "modprefix" "clsname" ((cname repr) ...) ((key TDef) ...)): the stub text, one string per line
+  | .list [.atom "stubgen", mp, cn, .list cs, .list tds] =>
+    let tds' : Option (List (String × Stubgen.TDef)) := tds.mapM fun (p : Sexp) => match p with
+      | Sexp.list [k, v] => do some ((← k.string?), (← parseTDef v))
+      | _ => none
+    match mp.string?, cn.string?, strPairs? cs, tds' with
+    | some mp, some cn, some cs, some tds =>
+      match Stubgen.generate { modPrefix := mp, clsName := cn, consts := cs, typedefs := tds } with
+      | .ok ls => .list (.atom "ok" :: ls.map fun l => .str l.render)
+      | .error .attributeError => .list [.atom "err", .atom "AttributeError"]
+      | .error .typeError => .list [.atom "err", .atom "TypeError"]
+    | _, _, _, _ => .list [.atom "bad-args"]
+  -- (planok cfg T plan): the validator's verdict on the plan of a structure's compiled reader
+  | .list [.atom "planok", c, t, .list pl] =>
+    match parseCfg c, parseTy t, pl.mapM parseInstr with
+    | .ok cfg, .ok (.struct al fs), some plan => .list [.atom (if Compiler.planOK cfg al fs plan then "ok" else "reject")]
+    | _, _, _ => .list [.atom "bad-args"]
+  -- (execplan cfg T plan hexdata pos): run the plan
+  | .list [.atom "execplan", c, t, .list pl, d, p] =>
+    match parseCfg c, parseTy t, pl.mapM parseInstr, d.hexBytes?, p.nat? with
+    | .ok cfg, .ok (.struct al fs), some plan, some data, some pos =>
+      match Compiler.readCompiled cfg al fs plan data pos with
+      | .ok (v, szs, p') => .list [.atom "ok", valToSexp v, .atom (toString p'),
+          .list (szs.map fun (n, k) => .list [.str n, .atom (toString k)])]
+      | .error e => errSexp e
+    | _, _, _, _, _ => .list [.atom "bad-args"]
   | _ => .list [.atom "bad-op"]
 
 partial def loop (h out : IO.FS.Stream) : IO Unit := do
